@@ -1367,7 +1367,7 @@ impl fmt::Display for XmlDeclarationAttList {
                     for v in values {
                         value.push_str(&format!("{}", v));
                     }
-                    write!(f, "{}", escape(value.as_str()))?;
+                    write!(f, "{}", escape_att_value(value.as_str()))?;
                 }
             }
         }
